@@ -18,7 +18,7 @@ import numpy as np
 
 from . import tlc as tlcmod
 from . import tla_values, xtal
-from .oracle import class_key
+from .oracle import class_key, det3
 from .tla_values import to_tla
 
 VERIF = tlcmod.VERIF
